@@ -17,6 +17,11 @@ panqec code and compared with reference code written here:
   edge weights of the live matcher), every `update_channel_probs` argument and
   the `channel_probs` in force at every ldpc `decode` (spy around BpOsdDecoder)
   and `update_probabilities` for every (correction bit, qubit).
+* tiny: the priors part again on a grid of tiny-but-positive marginals
+  (p in {1e-3, 1e-6, 1e-9, 1e-12, 0.05} x depolarising and bias ratios
+  1e3..1e12 towards each axis); every probability handed to a decoder and
+  every conditional update is compared with the exact reference in RELATIVE
+  terms (only an exactly-zero conditioning event is exempt).
 * session: ONE code object, ONE error rate, several DISTINCT models evaluated one
   after the other in one process (same deformation name with different axis
   kwargs, directions that differ only beyond the 4th decimal, with / without
@@ -96,6 +101,8 @@ BOUNDS = {
                                  'per (config, p) when n<=30, index-adjacent pairs when n>30',
               'bposd': 'all 67 directions when n<=12, 7 directions when n>12; up to 4 syndromes; '
                        'channel_update in {False, True}; CSS object and deformed (non-CSS) object',
+              'tiny': 'priors part on p in {1e-3,1e-6,1e-9,1e-12,0.05} x (depolarising + bias 1e3,1e6,1e9,1e12 '
+                      'towards X, Y, Z) for every (class, deformation config) of the quick list; relative 1e-9',
               'session': '8 classes (one per deformation family, all axis kwargs) x p in {0.25, 1.0}; 4 directions '
                          '(two pairs differing only beyond the 4th decimal) x every deformation config, forward '
                          'and reversed order, each order on one code object; dyadic grid 2^4'},
@@ -107,6 +114,7 @@ BOUNDS = {
                                     'pairs for 2 directions per (config, p) when n>20',
                  'bposd': 'all 67 directions; 4 syndromes; channel_update in {False, True}; CSS and deformed '
                           'object',
+                 'tiny': 'same grid on every (class, size, deformation config) of the thorough list',
                  'session': 'every class of the quick list plus the remaining classes with a deformation, '
                             'p in {0.001, 0.25, 0.9, 1.0}; same sequences; dyadic grid 2^6'},
 }
@@ -116,6 +124,9 @@ CHUNK = 1
 TOL = 1e-12
 PAIR_DIRS = (66, 17)          # indices into directions(): (1/3,1/3,1/3) and (0.1, 0.7, 0.2)-like interior point
 BP_DIRS_BIG = (66, 17, 0, 10, 65, 5, 38)
+# tiny-marginal grid for the prior / conditional-prior clauses
+TINY_P = [1e-3, 1e-6, 1e-9, 1e-12, 0.05]
+TINY_ETA = [1e3, 1e6, 1e9, 1e12]
 SESSION_CLASSES = ['RotatedPlanar2DCode', 'Toric2DCode', 'Color488Code', 'Color666ToricCode', 'Planar3DCode',
                    'RhombicPlanarCode', 'XCubeCode', SYNTH]
 # two pairs of directions that agree to 4 decimals (what a label / repr with limited precision would show)
@@ -129,6 +140,23 @@ def directions():
             out.append((a / 10, b / 10, (10 - a - b) / 10))
     out.append((1 / 3, 1 / 3, 1 / 3))
     return out
+
+
+def tiny_directions():
+    """depolarising, then bias ratio eta = r_axis / (sum of the other two) towards X, Y, Z."""
+    out = [(1 / 3, 1 / 3, 1 / 3)]
+    for ax in range(3):
+        for eta in TINY_ETA:
+            r = [1 / (2 * (1 + eta))] * 3
+            r[ax] = eta / (1 + eta)
+            out.append(tuple(r))
+    return out
+
+
+def tiny_r_key(ri):
+    if ri == 0:
+        return 'depolarising'
+    return ['XYZ'[(ri - 1) // len(TINY_ETA)], 'eta=1e%d' % round(math.log10(TINY_ETA[(ri - 1) % len(TINY_ETA)]))]
 
 
 def r_key(ri):
@@ -208,6 +236,12 @@ def cases(tier, seed):
                 out.append(dict(base, part='priors', bp_dirs=bp))
     out.sort(key=lambda c: (c['n'] * (4 if c['part'] == 'sample' else 1), c['cls'], str(c['deformation']), c['pi'],
                             c['part']))
+    tiny = []
+    for cls, size in code_list(tier):
+        n = build_code(cls, size).n
+        for d in deformation_configs(cls):
+            tiny.append({'part': 'tiny', 'cls': cls, 'size': size, 'deformation': d, 'n': n, 'bp_dirs': 'all'})
+    tiny.sort(key=lambda c: (c['n'], c['cls'], str(c['deformation'])))
     sess = []
     if tier == 'quick':
         scls, spis, g = SESSION_CLASSES, (3, 6), 4
@@ -219,7 +253,7 @@ def cases(tier, seed):
         for pi in spis:
             sess.append({'part': 'session', 'cls': cls, 'size': size, 'pi': pi, 'n': build_code(cls, size).n,
                          'grid_log2': g, 'deformation': None})
-    return sess + out
+    return sess + tiny + out
 
 
 # ---------------------------------------------------------------- reference
@@ -327,9 +361,11 @@ def base_key(case, ri=None):
     k = {'cls': case['cls'], 'size': case['size'], 'n': case['n'],
          'deformation': d[0] if d else None,
          'axis': (d[1].get('deformation_axis') if d else None),
-         'p': P_LIST[case['pi']], 'synthetic': case['cls'] == SYNTH}
+         'p': case['p'] if 'p' in case else P_LIST[case['pi']], 'synthetic': case['cls'] == SYNTH}
+    if case.get('grid') == 'tiny':
+        k['grid'] = 'tiny'
     if ri is not None:
-        k['r'] = r_key(ri)
+        k['r'] = tiny_r_key(ri) if case.get('grid') == 'tiny' else r_key(ri)
     return k
 
 
@@ -614,8 +650,9 @@ def eval_priors(case):
                      'bposd_decodes': 0, 'bposd_updates_seen': 0, 'bposd_noncss': 0, 'update_prob_entries': 0,
                      'cond_undefined': 0, 'cond_undefined_nan_handed': 0, 'violations_total': 0}}
     cls, size, d = case['cls'], case['size'], case['deformation']
-    p = P_LIST[case['pi']]
-    dirs = directions()
+    tiny = case.get('grid') == 'tiny'
+    p = case['p'] if tiny else P_LIST[case['pi']]
+    dirs = tiny_directions() if tiny else directions()
     code = build_code(cls, size)
     n = code.n
     code_def = None
@@ -635,6 +672,10 @@ def eval_priors(case):
 
     def close(a, b, rel=1e-9):
         return abs(a - b) <= rel * max(1.0, abs(b))
+
+    def relclose(a, b, rel=1e-9):
+        """probabilities are compared in relative terms: a reference of 0.5 (or 1e-13) with a result of 0 fails"""
+        return bool(np.all(np.isfinite(a)) and np.all(np.abs(np.asarray(a) - np.asarray(b)) <= rel * np.abs(b)))
 
     # ---- spies
     real_bp = bpmod.BpOsdDecoder
@@ -771,7 +812,7 @@ def eval_priors(case):
                         if exp is None:
                             res['extra']['cond_undefined'] += 1
                             continue
-                        if not (math.isfinite(new[i]) and close(new[i], exp)):
+                        if not relclose(new[i], exp):
                             viol('update_probabilities', ri,
                                  {'qubit': i, 'row': list(rows[i]), 'got': float(new[i]), 'expected': exp},
                                  direction=direction, bit=int(corr[i]))
@@ -806,7 +847,7 @@ def eval_priors(case):
                                 exp = np.array(qz_c + qx_c)
                                 ev = dec_events[0]
                                 if len(ev) != 1 or ev[0][1].shape != exp.shape or \
-                                        not np.all(np.abs(ev[0][1] - exp) <= 1e-9):
+                                        not relclose(ev[0][1], exp):
                                     viol('bposd_prior', ri, {'got': ev[0][1].tolist()[:2 * c.n] if ev else None,
                                                              'expected': exp.tolist()[:2 * c.n]},
                                          obj=label, css=False, channel_update=cu)
@@ -830,7 +871,7 @@ def eval_priors(case):
                                 first = 'z' if ev['z'][3] < ev['x'][3] else 'x'
                                 second = 'x' if first == 'z' else 'z'
                                 e1, e2 = ev[first], ev[second]
-                                if e1[1].shape != (c.n,) or not np.all(np.abs(e1[1] - marg[first]) <= 1e-9):
+                                if e1[1].shape != (c.n,) or not relclose(e1[1], marg[first]):
                                     found.append(('bposd_prior',
                                                   {'decoder_on': 'Hz' if first == 'x' else 'Hx',
                                                    'got': e1[1].tolist()[:8], 'expected': marg[first].tolist()[:8]},
@@ -852,7 +893,7 @@ def eval_priors(case):
                                                 continue
                                         else:
                                             exp = marg[second][i]
-                                        if not (math.isfinite(e2[1][i]) and abs(e2[1][i] - exp) <= 1e-9):
+                                        if not relclose(e2[1][i], exp):
                                             bad = bad or {'qubit': i, 'got': float(e2[1][i]), 'expected': float(exp),
                                                           'first_correction_bit': int(first_corr[i]),
                                                           'row': list(rows_c[i])}
@@ -871,8 +912,9 @@ def eval_priors(case):
                                 viol(kind, ri, detail, obj=label, css=True, channel_update=cu, **more)
             if any(abs(a - b) > 1e-12 for a, b in zip(qx, qz)) or len(set(qx)) > 1:
                 nontrivial.add(digest(cls, size, d, p, ri))
-            if ri == 17 and not res['samples']:
-                res['samples'].append({'cls': cls, 'deformation': d, 'p': p, 'r': r_key(ri),
+            if ri == min(17, len(dirs) - 1) and not res['samples']:
+                res['samples'].append({'cls': cls, 'deformation': d, 'p': p,
+                                       'r': tiny_r_key(ri) if tiny else r_key(ri),
                                        'q_x': qx[:4], 'q_z': qz[:4], 'weights_x': wx[:4].tolist(),
                                        'weights_z': wz[:4].tolist()})
     finally:
@@ -995,9 +1037,30 @@ def eval_session(case):
     return res
 
 
+def eval_tiny(case):
+    """The priors part on the tiny-marginal grid: one run of eval_priors per error rate, counters merged."""
+    total = None
+    for p in TINY_P:
+        r = eval_priors(dict(case, grid='tiny', p=p))
+        if total is None:
+            total = r
+            continue
+        for k in ('evals', 'nontrivial', 'skipped'):
+            total[k] += r[k]
+        for k, v in r['extra'].items():
+            total['extra'][k] = total['extra'].get(k, 0) + v
+        total['violations'] += r['violations']
+        total['outcomes'] = sorted(set(total['outcomes']) | set(r['outcomes']))[:50]
+        total['samples'] = (total['samples'] + r['samples'])[:2]
+    total['violations'] = total['violations'][:8]
+    return total
+
+
 def eval_case(case):
     if case['part'] == 'sample':
         return eval_sample(case)
     if case['part'] == 'session':
         return eval_session(case)
+    if case['part'] == 'tiny':
+        return eval_tiny(case)
     return eval_priors(case)
